@@ -48,7 +48,7 @@ func c11Check(r *vmc.Result, sc nsFloodScenario) func(nt *nsNet, hist []string) 
 			seq    uint64
 		}
 		total := map[ann]int{}
-		for _, f := range nt.sent {
+		for _, f := range nt.sentSnapshot() {
 			adv := nsAdvInfo(f.Bytes)
 			if adv == nil {
 				continue
